@@ -132,6 +132,15 @@ const (
 	EvAtomicLoad
 	EvAtomicStore
 	EvAtomicRMW
+	EvTryLock    // returns 1 when acquired
+	EvTryRLock   // returns 1 when acquired
+	EvWGAdd      // WaitGroup counter +1
+	EvWGDone     // WaitGroup counter -1
+	EvWGWait     // blocks until the counter is 0
+	EvCondEnq    // registers the caller as a waiter (before it unlocks)
+	EvCondWait   // blocks until signalled
+	EvCondSignal // wakes the longest waiter
+	EvCondBcast  // wakes every waiter
 )
 
 // Sync, when set, is called by the shims around synchronisation operations
@@ -139,3 +148,16 @@ const (
 // kinds it returns only when the operation may proceed. For EvOnceEnter it
 // returns 1 when the caller has to run the function, 0 when it is already done.
 var Sync func(kind int, addr uintptr) int
+
+// Spawn, when set, runs f as a new thread of the attached scheduler.
+var Spawn func(f func())
+
+// Go replaces the go statements of the instrumented packages (function value
+// and arguments are evaluated by the caller, as the language requires).
+func Go(f func()) {
+	if Spawn != nil {
+		Spawn(f)
+		return
+	}
+	go f()
+}
